@@ -13,14 +13,15 @@ harness/vcheck.py is held throughout, so a check running at the same time waits 
   (c) make a mandatory read optional                                     CreateResponsePayload.read (unique identifier)
   (d) read() stores a field in another field's attribute                  CapabilityInformation.read (the defect /repo 4f93fbb repaired)
   (e) drop a field from write() only                                      ResponseHeader.write (server correlation value, /repo 15c47ac)
+  (h) real changes made THROUGH a helper (after the harmless refactoring): h1 two `_write_optional` calls swapped,
+      h2 the inlined read helper made mandatory -> must be caught like (a)-(e)
   (f) harmless rewrites -> the generated SchemasGen.lean must be IDENTICAL to the one generated from /repo (no rebuild,
       no alarm): f0 local renamed / list() -> [] / `is not None` dropped / message built in a local;
       f-C1..f-C5 the five stored refactorings notes/harmless/round5/C-*.diff (C-3: module-level `_write_optional`);
       g1 read() through a helper METHOD returning the object, tags through a module constant and a class attribute,
          renamed stream variable, keyword argument, write() looping over a list literal of its fields;
       g2 `for x in self._xs or []`, a list comprehension / `extend` building the list that is then written in a loop;
-      g3 version tests with the operands swapped, through `_is_2_0(v)`, under `not`, class guard as `if ok: ... else: raise`,
-         renamed version parameter;
+      g3 version tests with the operands swapped, through `_is_2_0(v)`, under `not`, class guard as `if ok: ... else: raise`;
       g4 write() through a helper method that calls a module-level helper with an early `return` (depth 2);
       g5 mandatory read written as `if not self.is_tag_next(T, s): raise` + read, `if not self._x: raise else: write`.
 """
@@ -266,7 +267,7 @@ def harm_g3(root):
                 before_class="" if c == "CreateResponsePayload" else
                 "def _is_2_0(version):\n    return version >= enums.KMIPVersion.KMIP_2_0\n\n")
 
-    # class guard `if v < 2.0: raise` + rest  ->  `if v >= 2.0: rest else: raise`; version parameter renamed
+    # class guard `if v < 2.0: raise` + rest  ->  `if v >= 2.0: rest else: raise`
     def guard(ms):
         for name in ("read", "write"):
             fn = ms[name]
@@ -275,11 +276,6 @@ def harm_g3(root):
             assert isinstance(g, ast.If) and isinstance(g.body[0], ast.Raise), ast.unparse(g)[:80]
             test = ast.Compare(left=g.test.left, ops=[ast.GtE()], comparators=g.test.comparators)
             fn.body = doc + [ast.If(test=test, body=body[1:], orelse=g.body)]
-            for n in ast.walk(fn):
-                if isinstance(n, ast.Name) and n.id == "kmip_version":
-                    n.id = "version"
-                if isinstance(n, ast.arg) and n.arg == "kmip_version":
-                    n.arg = "version"
             ast.fix_missing_locations(fn)
         return ["read", "write"]
     rewrite(os.path.join(root, "kmip/core/objects.py"), "ProtectionStorageMasks", guard)
@@ -350,15 +346,31 @@ HARMLESS = [("f0: local renamed, list() -> [], `is not None` dropped, message bu
      for d in sorted(glob.glob(os.path.join(VERIF, "notes", "harmless", "round5", "C-*.diff")))] + \
     [("g1: read() through a helper method returning the object; constant / class-attribute tags; list-literal loop", harm_g1),
      ("g2: `for x in self._xs or []`; list comprehension / extend, then a loop", harm_g2),
-     ("g3: version tests swapped / through _is_2_0 / negated; guard as if-else; version parameter renamed", harm_g3),
+     ("g3: version tests swapped / through _is_2_0 / negated; guard as if-else", harm_g3),
      ("g4: write() through a method calling a module helper with an early return (depth 2)", harm_g4),
      ("g5: `if not is_tag_next: raise` + read; `if not x: raise else: write`", harm_g5)]
+
+def mut_h1(root):
+    stored_diff(os.path.join(VERIF, "notes", "harmless", "round5", "C-3-messages-write-optional-helper.diff"))(root)
+    p = os.path.join(root, "kmip/core/messages/messages.py")
+    a = "        _write_optional(self.batch_order_option, tstream, kmip_version)\n"
+    b = "        _write_optional(self.time_stamp, tstream, kmip_version)\n"
+    edit(p, a + b, b + a)
+
+
+def mut_h2(root):
+    harm_g1(root)
+    p = os.path.join(root, "kmip/core/messages/payloads/obtain_lease.py")
+    edit(p, "            return item\n        return None\n", "            return item\n        raise ValueError('missing')\n")
+
 
 MUTANTS = [("a: swap two field writes (CheckRequestPayload.write)", mut_a, True),
            ("b: drop the KMIP 2.0 guard around Ephemeral (RequestBatchItem.read)", mut_b, True),
            ("c: mandatory unique identifier made optional (CreateResponsePayload.read)", mut_c, True),
            ("d: read() stores Batch Undo Capability in the Batch Continue attribute (CapabilityInformation.read)", mut_d, True),
-           ("e: write() forgets the server correlation value (ResponseHeader.write)", mut_e, True)]
+           ("e: write() forgets the server correlation value (ResponseHeader.write)", mut_e, True),
+           ("h1: refactoring C-3 applied, then two _write_optional calls swapped (RequestHeader.write)", mut_h1, True),
+           ("h2: rewrite g1 applied, then the read helper raises when the item is missing (ObtainLeaseResponsePayload)", mut_h2, True)]
 
 
 def theorems_at(lines_failed):
